@@ -64,7 +64,7 @@ class ApiSystem(drv.System):
         _, _, ab, _ = drv.mods()
         t = self.loop.create_task(self.store.update(ab.PersistentHandler(
             handler_id=self.hid, workflow_name="w", status="running", run_id=self.run)))
-        self.loop.quiesce()
+        self._quiesce()
         t.result()
         self.closed = set()
 
